@@ -103,6 +103,18 @@ pub fn gen_c05(out: &mut impl Write, seed: u64, thorough: bool) {
     let mut r = Rng::new(seed ^ 0xC05);
     let mut cache = vec![];
     let passwords: Vec<Vec<u8>> = vec![vec![], vec![0x70], b"correct horse battery staple".to_vec(), vec![0xff, 0xfe, 0x00, 0x80], r.bytes(1024)];
+    if thorough {
+        // valid Argon2id memory costs at and beyond the 32-bit boundaries of the byte count (2 GiB, 4 GiB): implementation only
+        // (the round trip really evaluates Argon2id over that much memory; the lines are adjacent so that one worker runs them in turn)
+        for be in [Be::V2, Be::V4, Be::V4S] {
+            for mem in [1u64 << 31, 1u64 << 32] {
+                let mut p = mem.to_be_bytes().to_vec();
+                p.extend(1u32.to_be_bytes());
+                p.extend(1u32.to_be_bytes());
+                writeln!(out, "o.pw.rt {} local {} {} {}", be.name(), hex(b"pw"), hex(&r.pattern(32)), hex(pw_template(be, Kind::Local, &p, 32).as_bytes())).unwrap();
+            }
+        }
+    }
     for be in ALL_BE {
         let (psk, ppk) = pke_pair(be);
         for k in kinds() {
@@ -140,6 +152,28 @@ pub fn gen_c05(out: &mut impl Write, seed: u64, thorough: bool) {
     }
 }
 
+/// first and last byte index of every field of a PASERK blob (tag, nonce, salt, cost parameters, ephemeral key / encapsulation,
+/// encrypted key): every bit of these bytes is flipped even in the quick tier (sign bits, top bits of coordinates and counters live there)
+fn field_edges(op: &str, be: Be, n: usize) -> std::collections::HashSet<usize> {
+    let odd = be.version() % 2 == 1;
+    let mut cuts: Vec<usize> = match op {
+        "pie.open" => vec![0, if odd { 48 } else { 32 }, if odd { 80 } else { 64 }],
+        "pw.open" => if odd { vec![0, 32, 36, 52, n.saturating_sub(48)] } else { vec![0, 16, 24, 28, 32, 56, n.saturating_sub(32)] },
+        _ => match be {
+            Be::V1 => vec![0, 48, 80],
+            Be::V3 | Be::V3Lc => vec![0, 48, 97],
+            _ => vec![0, 32, 64],
+        },
+    };
+    cuts.push(n);
+    let mut e = std::collections::HashSet::new();
+    for c in cuts {
+        if c < n { e.insert(c); }
+        if c > 0 && c <= n { e.insert(c - 1); }
+    }
+    e
+}
+
 fn split_paserk(s: &str) -> (String, Vec<u8>) {
     let i = s.rfind('.').unwrap();
     (s[..=i].to_string(), unb64(&s[i + 1..]))
@@ -174,11 +208,12 @@ pub fn gen_c06(out: &mut impl Write, seed: u64, thorough: bool) {
                 };
                 // parameter block of PBKW blobs: only mutations that stay inside the cost budget
                 let (p0, p1) = if op == "pw.open" { if be.version() % 2 == 1 { (32, 36) } else { (16, 32) } } else { (0, 0) };
+                let fe = field_edges(op, be, n);
                 for byte in 0..n {
                     for bit in 0..8 {
                         let edge = byte < 4 || byte + 4 >= n || (byte >= p0.max(2) - 2 && byte < p1 + 2);
                         let stride = if thorough { if k == Kind::Local { 1 } else { 5 } } else if edge { 3 } else { 37 };
-                        if (byte * 8 + bit) % stride != 0 { continue; }
+                        if (byte * 8 + bit) % stride != 0 && !fe.contains(&byte) { continue; }
                         let mut m = blob.clone();
                         m[byte] ^= 1 << bit;
                         if !within(&m) { continue; }
@@ -232,10 +267,11 @@ pub fn gen_c06(out: &mut impl Write, seed: u64, thorough: bool) {
             let (hdr, blob) = split_paserk(&s);
             writeln!(out, "seal.open {} {} {} want=ok:{}", be.name(), hex(&psk), hex(s.as_bytes()), hex(&key)).unwrap();
             let n = blob.len();
+            let fe = field_edges("seal.open", be, n);
             for byte in 0..n {
                 for bit in 0..8 {
                     let stride = if thorough { 3 } else if be == Be::V1 { 211 } else { 13 };
-                    if (byte * 8 + bit) % stride != 0 { continue; }
+                    if (byte * 8 + bit) % stride != 0 && !fe.contains(&byte) { continue; }
                     let mut m = blob.clone();
                     m[byte] ^= 1 << bit;
                     writeln!(out, "seal.open {} {} {} want=err", be.name(), hex(&psk), hex(format!("{hdr}{}", b64(&m)).as_bytes())).unwrap();
